@@ -1,6 +1,7 @@
 package node
 
 import (
+	"bytes"
 	"context"
 	"database/sql"
 	"fmt"
@@ -656,7 +657,12 @@ func (d *Pegnetd) SnapshotPayouts(tx *sql.Tx, fLog *log.Entry, rates map[fat2.PT
 	}
 
 	sort.Slice(list, func(i, j int) bool {
-		return list[i].PUSD < list[j].PUSD
+		if list[i].PUSD != list[j].PUSD {
+			return list[i].PUSD < list[j].PUSD
+		}
+		// Equal stakes are ordered by address, so that the payout index (and with it the
+		// recorded history and the dust recipient) does not depend on map iteration order.
+		return bytes.Compare(list[i].Address[:], list[j].Address[:]) < 0
 	})
 
 	// Calculate payouts
